@@ -514,7 +514,10 @@ long c04_wrote_ld(long idx) {
 long c04_expect(long got, long want, long what) {
   cb_calls++;
   if (got != want) {
-    if (what == 0) viol("vla:sizeof-wrong", "sizeof yields %ld, the type was established with %ld bytes", got, want);
+    if (what == 10) viol("literal:not-fresh", "a sub-object of a freshly evaluated compound literal / initialised automatic object reads %ld, its initializer says %ld", got, want);
+    else if (what == 12) viol("literal:unmentioned-part-not-zero", "a sub-object without an initializer of a freshly evaluated compound literal / initialised automatic object reads %ld, want %ld", got, want);
+    else if (what == 11) viol("literal:file-scope-not-static", "a sub-object of a file-scope compound literal reads %ld, want %ld (initial value plus what earlier calls stored)", got, want);
+    else if (what == 0) viol("vla:sizeof-wrong", "sizeof yields %ld, the type was established with %ld bytes", got, want);
     else if (what == 3) viol("vla:sizeof-earlier-object-wrong", "sizeof an object declared before the other uses of its type now yields %ld, the object has %ld bytes", got, want);
     else if (what == 2) viol("vla:pointer-difference-wrong", "difference of two pointers to the variably modified type yields %ld, want %ld", got, want);
     else viol("vla:element-offset-wrong", "pointer arithmetic / subscripting on the variably modified type yields byte offset (or count) %ld, want %ld", got, want);
@@ -541,6 +544,119 @@ long c04_stored(void *obj, long off, long size, u64 v) {
   return 0;
 }
 void *c04_buf(void) { static _Alignas(16) u8 buf[1 << 20]; cb_calls++; return buf; }
+
+/* ------------------------------------------------------------------ (i) pointer arithmetic with index operand expressions */
+/* names of the operator forms, in the order of PX_FORMS in models/c04_lvalues.py */
+static const char *const px_forms[] = {"base", "p+n", "n+p", "p-n", "p[n]", "n[p]", "p+=n", "p-=n", "(a+4)[n]", "&a[4]-n", "(p+n)-p", "(p-n)-p",
+                                       "++p", "p++", "--p", "p--"};
+#define PX_NFORMS ((long)(sizeof px_forms / sizeof *px_forms))
+#define PX_BASE 4            /* p points at element 4 of a 9-element array */
+static u8 markbyte(long i) { return (u8)(0xC1 + i * 3); }
+long c04_pxv(long k, long lo) { cb_calls++; return lo + k; }
+long c04_mk(void *p, long n) { cb_calls++; for (long i = 0; i < n; i++) ((u8 *)p)[i] = markbyte(i); return 0; }
+static int px_args_ok(long v, long sign, long elsz, long form) {
+  if (form < 0 || form >= PX_NFORMS || (sign != 1 && sign != -1) || PX_BASE + sign * v < 0 || PX_BASE + sign * v > 8) { viol("harness", "pointer-index arguments %ld %ld %ld", v, sign, form); return 0; }
+  if (elsz != zero_set[0]) { viol("ptr-index:sizeof-element-wrong", "sizeof the element type yields %ld, want %d", elsz, zero_set[0]); return 0; }
+  return 1;
+}
+/* the address an lvalue / pointer expression designates: element PX_BASE + sign * v of the array; returns 1 when it is right */
+long c04_at(void *got, void *arr, long v, long sign, long elsz, long form) {
+  cb_calls++;
+  if (!px_args_ok(v, sign, elsz, form)) return 0;
+  u8 *want = (u8 *)arr + (PX_BASE + sign * v) * elsz;
+  if ((u8 *)got != want) {
+    char dev[64]; snprintf(dev, sizeof dev, "%s:address-wrong", px_forms[form]);
+    viol(dev, "index operand value %ld, element size %ld: designates byte offset %ld of the array, want %ld", v, elsz, (long)((u8 *)got - (u8 *)arr), (long)(want - (u8 *)arr));
+    return 0;
+  }
+  return 1;
+}
+/* after `lvalue = marker`: exactly the designated element holds the marker, every other byte of the array its pattern */
+long c04_marked(long idx, long v, long sign, long elsz, long form) {
+  cb_calls++;
+  if (!px_args_ok(v, sign, elsz, form)) return 0;
+  if (idx < 0 || idx >= nregs || regs[idx].n != 9 * elsz) { viol("harness", "c04_marked index"); return 0; }
+  Reg *r = &regs[idx];
+  long off = (PX_BASE + sign * v) * elsz;
+  for (long i = 0; i < r->n; i++) {
+    int in = i >= off && i < off + elsz;
+    u8 want = in ? markbyte(i - off) : patbyte(r->pat, i);
+    if (r->p[i] != want) {
+      char dev[64]; snprintf(dev, sizeof dev, "%s:%s", px_forms[form], in ? "store-missed-its-element" : "store-hit-other-bytes");
+      viol(dev, "index operand value %ld, element size %ld: after the store byte %ld of the array is %02x, want %02x", v, elsz, i, r->p[i], want);
+      break;
+    }
+  }
+  reg_fill(r);
+  return 0;
+}
+/* a load through the lvalue must yield the bytes of the designated element */
+long c04_rd(void *t, long idx, long v, long sign, long elsz, long form) {
+  cb_calls++;
+  if (!px_args_ok(v, sign, elsz, form)) return 0;
+  if (idx < 0 || idx >= nregs || regs[idx].n != 9 * elsz) { viol("harness", "c04_rd index"); return 0; }
+  if (memcmp(t, regs[idx].p + (PX_BASE + sign * v) * elsz, elsz)) {
+    char dev[64]; snprintf(dev, sizeof dev, "%s:load-read-other-bytes", px_forms[form]);
+    viol(dev, "index operand value %ld, element size %ld: the value loaded through the lvalue is not the designated element", v, elsz);
+  }
+  return 0;
+}
+long c04_pd(long got, long want, long form) {
+  cb_calls++;
+  if (form < 0 || form >= PX_NFORMS) { viol("harness", "form %ld", form); return 0; }
+  if (got != want) { char dev[64]; snprintf(dev, sizeof dev, "%s:pointer-difference-wrong", px_forms[form]); viol(dev, "yields %ld, want %ld", got, want); }
+  return 0;
+}
+
+/* ------------------------------------------------------------------ (j) a store whose right-hand side writes a neighbour */
+typedef long (*bn_t)(void *, int, long, long, long);
+typedef struct { int nf; int kind[4], w[4]; int x; const u64 *init, *exp; } BnRow;
+static const char *const bn_groups[] = {"chain", "rhs-incdec", "rhs-compound", "compound-lhs", "call", "comma", "cond", "operands", "stmtexpr", "lhs-writes", "whole-struct", "union-overlap"};
+static void bn_case(bn_t acc, void *obj, const BnRow *r, const int *grp, const char *const *txt, int nt, const long *vw, int nvw, int ninit) {
+  u8 *o = obj;
+  long n = acc(obj, 94, 0, 0, 5);
+  u8 *g0 = (u8 *)acc(obj, 90, 0, 0, 5), *g1 = (u8 *)acc(obj, 91, 0, 0, 5), *ss = (u8 *)acc(obj, 92, 0, 0, 5);
+  long ssz = acc(obj, 93, 0, 0, 5);
+  if (n <= 0 || n > 160 || r->nf < 3 || r->nf > 4) { viol("harness", "object size %ld", n); return; }
+  if (g0 < o || g0 + 16 > ss || ss + ssz > g1 || g1 + 16 > o + n || ssz <= 0) { viol("object-overlap", "guard0 at +%ld, struct at +%ld size %ld, guard1 at +%ld, enclosing size %ld", (long)(g0 - o), (long)(ss - o), ssz, (long)(g1 - o), n); return; }
+  static const int bgs[] = {0x00, 0xff};
+  u8 a[160], b[160];
+  char dev[64];
+  for (int t = 0; t < nt; t++)
+    for (int in = 0; in < ninit; in++)
+      for (int k = 0; k < nvw; k++) {
+        const u64 *e = r->exp + ((long)(t * ninit + in) * nvw + k) * (r->nf + 1);
+        int bg = bgs[(t + in + k) & 1];
+        memset(o, bg, n);
+        int ok = 1;
+        for (int f = 0; f < r->nf; f++) acc(o, 10 + f, (long)r->init[in * r->nf + f], 0, 5);
+        for (int f = 0; f < r->nf; f++) {
+          u64 got0 = (u64)acc(o, f, 0, 0, 5);
+          if (got0 != r->init[in * r->nf + f]) {
+            /* plain stores to all fields, then plain loads: an observation of its own (and the statement cannot be judged) */
+            if (ok) EVAL();
+            ok = 0;
+            viol("plain-stores:readback-wrong", "after storing every field its value, field %d reads %#lx, want %#lx (initial set %d)", f, got0, r->init[in * r->nf + f], in);
+          }
+        }
+        if (!ok) { n_skipped++; continue; }
+        memcpy(a, o, n);
+        u64 val = (u64)acc(o, 100 + t, vw[2 * k], vw[2 * k + 1], 5);
+        memcpy(b, o, n);
+        EVAL();
+        const char *g = bn_groups[grp[t]];
+        for (long i = 0; i < n; i++)
+          if (a[i] != b[i] && (o + i < ss || o + i >= ss + ssz)) { snprintf(dev, sizeof dev, "%s:bytes-outside-struct-changed", g); viol(dev, "`%s` v=%ld w=%ld: byte %+ld relative to the struct changed %02x->%02x", txt[t], vw[2 * k], vw[2 * k + 1], (long)(o + i - ss), a[i], b[i]); break; }
+        for (int f = 0; f < r->nf; f++) {
+          u64 got = (u64)acc(o, f, 0, 0, 5);
+          if (got != e[f]) {
+            snprintf(dev, sizeof dev, "%s:%s", g, f == r->x ? "assigned-field-wrong" : "neighbour-field-wrong");
+            viol(dev, "`%s` v=%ld w=%ld initial set %d: field %d reads %#lx after the statement, want %#lx (it held %#lx before)", txt[t], vw[2 * k], vw[2 * k + 1], in, f, got, e[f], r->init[in * r->nf + f]);
+          }
+        }
+        if (val != e[r->nf]) { snprintf(dev, sizeof dev, "%s:expr-value-wrong", g); viol(dev, "`%s` v=%ld w=%ld initial set %d: the expression yields %#lx, want %#lx", txt[t], vw[2 * k], vw[2 * k + 1], in, val, e[r->nf]); }
+      }
+}
 
 static int call_rounds = 2;
 static void call_case(long (*fn)(long), const CallRow *r) {
